@@ -12,12 +12,13 @@ namespace {
 struct St {
     nix::File file;
     nix::Section sec;
-    std::map<std::string, nix::Property> handles;
+    std::map<std::string, nix::Property> handles;      // the first kept handle of a property ("h")
+    std::map<std::string, nix::Property> handles2;     // a second one, from a later lookup ("k"; every fresh lookup "n" becomes it)
     std::string path;
 } st;
 
 void dropHandles() {
-    st.handles.clear();
+    st.handles.clear(); st.handles2.clear();
     st.sec = nix::Section();
 }
 void resetAll() {
@@ -81,12 +82,18 @@ std::vector<nix::Variant> variants(const std::string &tok) {
 // the handle an op goes through
 nix::Property prop(const std::string &nameTok, const std::string &via) {
     std::string name = unhexStr(nameTok);
+    // two handles of one property stay alive side by side: nothing about a property may be remembered in a handle
     if (via == "h") {
         auto it = st.handles.find(name);
         if (it != st.handles.end()) return it->second;
+    } else if (via == "k") {
+        auto it = st.handles2.find(name);
+        if (it != st.handles2.end()) return it->second;
     } else if (via != "n") throw ProtoError("bad via " + via);
     nix::Property p = st.sec.getProperty(name);
-    if (p) st.handles[name] = p;
+    if (p) {
+        if (st.handles.find(name) == st.handles.end()) st.handles[name] = p; else st.handles2[name] = p;
+    }
     return p;
 }
 std::string optS(const boost::optional<std::string> &o) { return o ? hexStr(*o) : std::string("~"); }
@@ -194,7 +201,7 @@ DRV_OP(pv_del) {
     return guarded([&]() {
         std::string name = unhexStr(a[1]);
         bool r = st.sec.deleteProperty(name);
-        if (r) st.handles.erase(name);
+        if (r) { st.handles.erase(name); st.handles2.erase(name); }
         return std::string(r ? "1" : "0");
     });
 }
